@@ -11,7 +11,7 @@ from props.c17_fam import H, IT, REP, SEQ, fs, families
 F = fractions.Fraction
 PID = 'C17'
 COQ_DIRS = ['common', 'C17']
-TARGETS = ['C17/Props.vo', 'C17/Corr.vo', 'C17/GenEq.vo', 'C17/GenObjEq.vo', 'C17/GenBaseEq.vo']
+TARGETS = ['C17/Props.vo', 'C17/Corr.vo', 'C17/GenEq.vo', 'C17/GenObjEq.vo', 'C17/GenBaseEq.vo', 'C17/GenTrEq.vo']
 MODEL_TARGETS = ['C17/Corr.vo']
 PROPS_FILE = 'C17/Props.v'
 PROPS_MODULE = 'QV.C17.Props'
@@ -532,13 +532,13 @@ def gen_cases(rng, tier, ctx):
     cases.extend(small)
     n = {'quick': 1, 'thorough': 8}[tier]
     # A: iterations and sequences only (the class covered by the staircase theorem and its generalisation)
-    for _ in range(300 * n):
+    for _ in range(260 if tier == 'quick' else 300 * n):   # round 4: 40 + 40 random cases made room for two deterministic families
         chans = CHANNEL_POOL[:rng.choice([1, 1, 2, 2, 3])]
         opts = {'counts': [1], 'p_int': 0.0}
         tree = gen_tree_norep(rng, chans, (), rng.choice([2, 3, 3, 4]), opts, [rng.choice([12, 30, 60])])
         cases.append(mk_run(rng, tree, chans))
     # B: everything
-    for _ in range(450 * n):
+    for _ in range(410 if tier == 'quick' else 450 * n):
         chans = CHANNEL_POOL[:rng.choice([1, 1, 2, 2, 3])]
         tree = gen_tree(rng, chans, (), rng.choice([2, 3, 3, 4]), {}, [rng.choice([12, 30, 60])])
         cases.append(mk_run(rng, tree, chans))
